@@ -31,6 +31,8 @@ MENU = [
     ("block-multi", "\n/* c{N}\n   more\n */\n", "multi"),
     ("block-multi-ragged", " /* c{N}\n       x\n  y */ ", "multi"),
     ("nonascii-comment", " # çé✓ c{N}\n", "line"),
+    ("two-blocks-inline", " /* c{N} */ /* d{N} */ ", "block"),
+    ("two-line-comments", "\n# c{N}\n# d{N}\n", "line"),
 ]
 MENU_BY_ID = {m[0]: m for m in MENU}
 
